@@ -31,6 +31,17 @@ func GenMD(t *rapid.T, maxKeys int) []KV { return GenMDPool(t, nil, maxKeys) }
 // metadata sets of one RPC (several SetHeader calls, request vs response), so
 // that the order in which sets are joined becomes observable.
 func GenMDPool(t *rapid.T, pool *[]string, maxKeys int) []KV {
+	return genMDPool(t, pool, maxKeys, true)
+}
+
+// GenMDPoolFixedCase is GenMDPool with every key spelled the same way each
+// time it is used: for hand-built metadata.MD maps, where two spellings of one
+// key would be two map entries whose relative order is undefined.
+func GenMDPoolFixedCase(t *rapid.T, pool *[]string, maxKeys int) []KV {
+	return genMDPool(t, pool, maxKeys, false)
+}
+
+func genMDPool(t *rapid.T, pool *[]string, maxKeys int, recase bool) []KV {
 	nk := rapid.IntRange(0, maxKeys).Draw(t, "nkeys")
 	var out []KV
 	for i := 0; i < nk; i++ {
@@ -39,12 +50,20 @@ func GenMDPool(t *rapid.T, pool *[]string, maxKeys int) []KV {
 		if pool != nil && len(*pool) > 0 && rapid.Bool().Draw(t, "reusekey") {
 			k = rapid.SampledFrom(*pool).Draw(t, "poolkey")
 			bin = strings.HasSuffix(strings.ToLower(k), "-bin")
-			if rapid.Bool().Draw(t, "recasepool") {
+			if recase && rapid.Bool().Draw(t, "recasepool") {
 				k = swapCase(k)
 			}
 		} else {
 			bin = rapid.Bool().Draw(t, "bin")
 			k = GenKey(t, bin)
+			if !recase && pool != nil {
+				// one spelling per key: reuse an existing spelling of the same lower-cased key
+				for _, e := range *pool {
+					if strings.EqualFold(e, k) {
+						k = e
+					}
+				}
+			}
 			if pool != nil {
 				*pool = append(*pool, k)
 			}
@@ -70,7 +89,7 @@ func GenMDPool(t *rapid.T, pool *[]string, maxKeys int) []KV {
 			}
 			// a repeated key in different letter case exercises lower-casing + per-key order
 			kk := k
-			if j > 0 && rapid.Bool().Draw(t, "recase") {
+			if recase && j > 0 && rapid.Bool().Draw(t, "recase") {
 				kk = swapCase(k)
 			}
 			out = append(out, KV{K: kk, V: v})
@@ -287,8 +306,21 @@ func GenStreamConv(t *rapid.T, kind int, o GenOpts) Conv {
 	}
 	if o.WithMD {
 		pool := &[]string{}
-		GenMD := func(t *rapid.T, n int) []KV { return GenMDPool(t, pool, n) }
+		raw := rapid.IntRange(0, 3).Draw(t, "rawmd") == 0 // the handler builds its metadata.MD maps by hand, keys in any case
+		GenMD := func(t *rapid.T, n int) []KV {
+			if raw {
+				return GenMDPoolFixedCase(t, pool, n)
+			}
+			return GenMDPool(t, pool, n)
+		}
 		cv.MD = GenMD(t, 6)
+		defer func() {
+			for i := range cv.H.Ops {
+				if cv.H.Ops[i].MD != nil {
+					cv.H.Ops[i].Raw = raw
+				}
+			}
+		}()
 		// header ops before the first send; optional explicit SendHeader; optional late SetHeader (must fail)
 		firstSend := len(hops)
 		for i, op := range hops {
@@ -396,12 +428,18 @@ func GenUnaryConv(t *rapid.T, o GenOpts) Conv {
 	cv.UErr = GenErrSpec(t, o.OKBias)
 	if o.WithMD {
 		pool := &[]string{}
-		GenMD := func(t *rapid.T, n int) []KV { return GenMDPool(t, pool, n) }
+		raw := rapid.IntRange(0, 3).Draw(t, "rawmd") == 0
+		GenMD := func(t *rapid.T, n int) []KV {
+			if raw {
+				return GenMDPoolFixedCase(t, pool, n)
+			}
+			return GenMDPool(t, pool, n)
+		}
 		cv.MD = GenMD(t, 6)
 		n := rapid.IntRange(0, 3).Draw(t, "nuops")
 		for i := 0; i < n; i++ {
 			op := rapid.SampledFrom([]string{"sethdr", "sethdr", "settrl", "settrl", "sendhdr"}).Draw(t, "uop")
-			cv.UOps = append(cv.UOps, HOp{Op: op, MD: GenMD(t, 4)})
+			cv.UOps = append(cv.UOps, HOp{Op: op, MD: GenMD(t, 4), Raw: raw})
 		}
 	}
 	return cv
